@@ -9,10 +9,23 @@ Roles: A = first extent, B = second extent, F = flag. Arrays are dimensioned by 
 them, flags select branches. ``dic2p`` = generated subset of the roles with the values of the *matching* inputs.
 The case carries input vectors that match dic2p and vectors that do not (one run of the program per vector: the
 driver reads the vector number from stdin, because a non-matching vector must abort the transformed program).
+
+Documented usage of ParametriseTransformation that the generator guarantees by construction (class docstring,
+loki/transformations/tests/test_parametrise.py + tests/sources/projParametrise):
+  * every caller of a routine below the entry points is itself at or below the entry points ("all parts of the code
+    calling subroutines that are transformed ... must be included"): with the mid routines as entry points the leaf is
+    not called by the kernel;
+  * an entry point's parametrised dummies are renamed ``parametrised_<name>`` (documented output), so callers of an entry
+    point, which are not transformed, pass these arguments positionally, never by keyword;
+  * dic2p lists the dummy names of all entry points ("all possibly differing names of variables at the entry points");
+  * every call of one callee passes the same role variables to the same dummies;
+  * parametrised dummies are never defined (intent in; intent inout at the entry point as in loki's test project).
+Triggers of listed known findings (TRIGGERS) are only generated when their flag is on; the check switches the flag off
+while the finding is listed (``ctx.exclude``) - the committed replay files keep them.
 """
 from . import gen
 from . import gen_inline as GI
-from .gen_inline import SG, conv
+from .gen_inline import SG, conv  # noqa: F401
 from .model import var, lit, decl, routine, module
 from .native import fnum
 
@@ -20,7 +33,8 @@ EPS = ['driver', 'named', 'mid']        # entry_points=None (role driver) | ('ke
 
 FLAGS = [
     'rename_dummy',      # callee dummies are named differently from the variables passed
-    'same_local_name',   # a routine that does NOT receive a role variable has a local of that (entry) name
+    'same_local_name',   # a routine below the entry points that does NOT receive a role variable has a local of that (entry) name
+    'ep_local_clash',    # TRIGGER: an entry point (mid) without role r has a local named like the other entry point's dummy for r
     'dims_dummy',        # dummy arrays dimensioned by role variables
     'dims_local',        # local arrays dimensioned by role variables
     'loop_bound',        # DO loops running to role variables
@@ -28,22 +42,27 @@ FLAGS = [
     'flag_select',       # SELECT CASE on the flag
     'expr_use',          # role variables inside expressions where precedence matters (x - F, x*F, F**2, -F)
     'expr_pass',         # an expression of a role variable is passed to a plain scalar dummy
-    'kw_pass',           # a role variable is passed by keyword
-    'pass_twice',        # the same role variable is passed to two dummies of one call
+    'kw_pass',           # the arguments after the role variables are passed by keyword
+    'kw_role',           # the last role variable (and everything after it) is passed by keyword by a transformed caller;
+                         # together with multi_call: first call positional, second by keyword (TRIGGER kw_role_mixed)
+    'pass_twice',        # TRIGGER: the same role variable is passed to two dummies of one call (kernel -> mid0)
     'multi_call',        # a callee is called twice from the same caller
     'leaf',              # a third level
-    'leaf_from_kernel',  # the leaf is also called by the kernel
+    'leaf_from_kernel',  # the leaf is also called by the kernel (not with the mids as entry points)
     'two_mids',          # two routines on the middle level
     'neg_value',         # the flag value is negative
     'zero_value',        # the flag value is 0
     'intent_inout',      # the parametrised entry dummies are intent(inout) (as in loki's test project)
     'decl_group',        # role variables declared in one grouped declaration
-    'case_upper',        # identifiers rendered in upper / mixed case
+    'case_upper',        # identifiers rendered in upper case (dic2p spelled alike) or, 1 in 4, in mixed case
     'fn_callee',         # a function that receives a role variable (function reference, not CALL)
     'partial_roles',     # a callee receives only some of the roles
     'local_copy',        # a local is assigned from a role variable and used instead
     'size_intrinsic',    # size()/ubound() of arrays dimensioned by role variables
 ]
+# root causes listed in known_findings.d/C39.txt, in the fixed order in which a failing case is attributed to them;
+# meta['triggers'] names those that really occur in the built program AND touch a parametrised variable
+TRIGGERS = ['kw_role_mixed', 'pass_twice', 'ep_local_clash']
 SIZES = {'fill': (0, 2), 'nmatch': (1, 3)}
 SIZE_MIN = {'fill': 0, 'nmatch': 1}
 STREAMS = ['kernel', 'mid0', 'mid1', 'leaf0', 'dic', 'inputs', 'layout']
@@ -57,17 +76,17 @@ def specs(eps=None, flag_pct=45):
     return GI.spec_strategy(eps or EPS, FLAGS, STREAMS, SIZES, OPTS, flag_pct=flag_pct)
 
 
-def _scalar_env(extra_ro=()):
-    env = gen.Env()
-    return env
-
-
-def make_routine(b, g, name, level, roles, names, children, funs, entry=False):
+def make_routine(b, g, name, level, roles, names, children, funs, entry=False, info=None):
     """
     one routine of the tree. roles: ordered list of roles it receives; names: role -> local dummy name.
-    children: list of child sigs. Returns (routine dict, sig)
+    children: list of child sigs. info: {'is_ep': this routine is an entry point of the transformation,
+    'transformed': it is at or below the entry points, 'pset': roles that are parametrised in it,
+    'clash_locals': [(local name, bites)] locals named like a dic2p key (entry points only)}.
+    Returns (routine dict, sig)
     """
     F = b.F
+    info = info or {}
+    is_ep, transformed, pset = bool(info.get('is_ep')), bool(info.get('transformed')), set(info.get('pset', ()))
     env = gen.Env()
     args, decls = [], []
     prologue = []
@@ -122,7 +141,7 @@ def make_routine(b, g, name, level, roles, names, children, funs, entry=False):
         decls.append(decl('ta', 'int', dims=[[1, has['A']]]))
         body.append(['assign', var('ta'), lit(g.i(1, 3))])
         b.use('dims_local')
-    if F('same_local_name') and not entry:
+    if F('same_local_name') and not entry and not is_ep:
         missing = [r for r in 'ABF' if r not in has]
         for r in missing[:1]:
             nm = ROLE_NAMES[r][0]
@@ -132,6 +151,15 @@ def make_routine(b, g, name, level, roles, names, children, funs, entry=False):
                 body.append(['assign', var(iacc), ['b', '+', var(iacc), ['b', '*', var(nm), lit(2)]]])
                 env.vars[nm] = {'type': 'int', 'dims': None, 'ro': True}
                 b.use('same_local_name')
+    for nm, bites in info.get('clash_locals', ()):
+        if nm not in env.vars and nm not in args:
+            decls.append(decl(nm, 'int'))
+            body.append(['assign', var(nm), lit(g.i(5, 9))])
+            body.append(['assign', var(iacc), ['b', '+', var(iacc), ['b', '*', var(nm), lit(2)]]])
+            env.vars[nm] = {'type': 'int', 'dims': None, 'ro': True}
+            b.use('ep_local_clash')
+            if bites:
+                b.triggers.add('ep_local_clash')
     if F('local_copy') and has:
         r = g.pick(sorted(has))
         decls.append(decl('lcp', 'int'))
@@ -193,47 +221,49 @@ def make_routine(b, g, name, level, roles, names, children, funs, entry=False):
         b.use('expr_use')
     # calls to children
     for ch in children:
+        if not all(r in has for r in ch['roles']):
+            continue
         ncalls = 2 if (F('multi_call') and g.chance(60)) else 1
         for ci in range(ncalls):
-            pos, kws = [], {}
-            ok = True
-            kw_role = None
-            if F('kw_pass') and ch['roles'] and g.chance(60):
-                kw_role = ch['roles'][-1]
-            for r in ch['roles']:
-                if r not in has:
-                    ok = False
-                    break
-            if not ok:
-                continue
-            arglist = []   # (dummy name, expr)
+            arglist = []   # (dummy name, actual, role)
             for r in ch['roles']:
                 arglist.append((ch['names'][r], var(has[r]), r))
-            sdum = ch['scalar_in']
             if F('expr_pass') and has:
                 r0 = g.pick(sorted(has))
                 sarg = ['b', '+', var(has[r0]), lit(1)]
                 b.use('expr_pass')
             else:
                 sarg = lit(g.i(1, 4)) if ci else var('xi0' if entry else 'si')
-            if ch.get('twice') and 'A' in has:
-                sarg = var(has[ch['twice']]) if ch['twice'] in has else sarg
-            arglist.append((sdum, sarg, None))
+            if ch.get('twice') and ch['twice'] in has:
+                # TRIGGER pass_twice: the plain scalar dummy receives a role variable that is also passed to its own dummy
+                sarg = var(has[ch['twice']])
+                b.use('pass_twice')
+                if transformed and ch['twice'] in pset and not ch['is_ep']:
+                    b.triggers.add('pass_twice')
+            arglist.append((ch['scalar_in'], sarg, None))
             arglist.append((ch['iacc'], var(iacc), None))
             arglist.append((ch['racc'], var(racc), None))
             if 'c' in ch['arrays']:
                 arglist.append(('c', var('c'), None))
             if 'd' in ch['arrays']:
                 arglist.append(('d', var('d'), None))
-            started_kw = False
-            for dn, e, r in arglist:
-                if started_kw or (kw_role is not None and r == kw_role):
+            nroles = len(ch['roles'])
+            kw_from = None
+            if F('kw_role') and transformed and not ch['is_ep'] and nroles and (ncalls == 1 or ci == 1):
+                # only a transformed caller passes a role variable by keyword, and never to an entry point
+                kw_from = nroles - 1
+                b.use('kw_role')
+                if ncalls == 2 and ch['roles'][-1] in pset:
+                    b.triggers.add('kw_role_mixed')     # TRIGGER: positional in the first call, keyword in the second
+            elif F('kw_pass') and g.chance(70):
+                kw_from = nroles + g.i(0, len(arglist) - nroles - 1)
+                b.use('kw_pass')
+            pos, kws = [], {}
+            for k, (dn, e, r) in enumerate(arglist):
+                if kw_from is not None and k >= kw_from:
                     kws[dn] = e
-                    started_kw = True
                 else:
                     pos.append(e)
-            if kws:
-                b.use('kw_pass')
             body.append(['call', ch['name'], pos, kws])
             if ci:
                 b.use('multi_call')
@@ -254,7 +284,7 @@ def make_routine(b, g, name, level, roles, names, children, funs, entry=False):
         r_['spec_raw_pre'] = [f'    integer, intent({role_intent}) :: ' + ', '.join(grouped)]
         b.use('decl_group')
     sig = {'name': name, 'roles': list(roles), 'names': dict(names), 'scalar_in': 'si', 'iacc': 'acc', 'racc': 'racc',
-           'arrays': sorted(arrs), 'level': level}
+           'arrays': sorted(arrs), 'level': level, 'is_ep': is_ep}
     return r_, sig
 
 
@@ -289,6 +319,34 @@ def build(spec):
             return g.pick(opts)
         return ['A', 'B', 'F']
 
+    ep = spec['ep']
+    b.triggers = set()
+    # ---- shape of the tree first (roles and dummy names of every routine), then the routines bottom-up
+    g_leaf, g_mids = b.g('leaf0'), [b.g('mid0'), b.g('mid1')]
+    nm = 2 if F('two_mids') else 1
+    leaf_roles = roles_for(g_leaf, 2) if F('leaf') else None
+    leaf_names = names_for(2, 0) if F('leaf') else None
+    mid_roles = [roles_for(g_mids[k], 1) for k in range(nm)]
+    mid_names = [names_for(1, k) for k in range(nm)]
+    below = ep != 'mid'          # is the kernel itself transformed (entry point) or above the entry points
+
+    def pset(roles):
+        return {r for r in roles_p if r in roles}
+
+    # dic2p and entry points
+    if ep == 'mid':
+        entry_points = [f'mid{k}' for k in range(nm)]
+        dic = {}
+        for k in range(nm):
+            for r in roles_p:
+                if r in mid_roles[k]:
+                    dic[mid_names[k][r]] = values[r]
+        guarded = sorted({r for k in range(nm) for r in roles_p if r in mid_roles[k]})
+    else:
+        entry_points = None if ep == 'driver' else ['kernel']
+        dic = {ROLE_NAMES[r][0]: values[r] for r in roles_p}
+        guarded = sorted(roles_p)
+
     routines = []
     funs = []
     if F('fn_callee'):
@@ -299,50 +357,44 @@ def build(spec):
         funs.append({'name': 'pfun', 'roles': ['A']})
     leaf_sigs = []
     if F('leaf'):
-        g = b.g('leaf0')
-        lr = roles_for(g, 2)
-        r, sig = make_routine(b, g, 'leaf0', 2, lr, names_for(2, 0), [], [])
+        r, sig = make_routine(b, g_leaf, 'leaf0', 2, leaf_roles, leaf_names, [], [],
+                              info={'is_ep': False, 'transformed': True, 'pset': pset(leaf_roles)})
         routines.append(r)
         leaf_sigs.append(sig)
         b.use('leaf')
     mids = []
-    nm = 2 if F('two_mids') else 1
     for k in range(nm):
-        g = b.g(f'mid{k}')
-        mr = roles_for(g, 1)
-        ch = [s for s in leaf_sigs if all(x in mr for x in s['roles'])]
-        r, sig = make_routine(b, g, f'mid{k}', 1, mr, names_for(1, k), ch, funs if k == 0 else [])
+        mr = mid_roles[k]
+        ch = [s_ for s_ in leaf_sigs if all(x in mr for x in s_['roles'])]
+        clash = []
+        if ep == 'mid' and nm == 2 and F('ep_local_clash'):
+            # TRIGGER ep_local_clash: this entry point does not receive role r, the other one does under the name nm_;
+            # dic2p therefore contains nm_ (when r is parametrised) and this routine has a LOCAL variable of that name
+            o = 1 - k
+            for r in 'ABF':
+                if r not in mr and r in mid_roles[o]:
+                    clash.append((mid_names[o][r], r in roles_p))
+                    break
+        r, sig = make_routine(b, g_mids[k], f'mid{k}', 1, mr, mid_names[k], ch, funs if k == 0 else [],
+                              info={'is_ep': ep == 'mid', 'transformed': True, 'pset': pset(mr), 'clash_locals': clash})
         routines.append(r)
         mids.append(sig)
     if nm == 2:
         b.use('two_mids')
     gk = b.g('kernel')
     kch = list(mids)
-    if F('leaf_from_kernel') and leaf_sigs:
+    if F('leaf_from_kernel') and leaf_sigs and ep != 'mid':
+        # with the mids as entry points the kernel is not transformed and must not call a routine below them
         kch += leaf_sigs
         b.use('leaf_from_kernel')
     if F('pass_twice'):
         # the plain scalar dummy of mid0 receives the same role variable a second time
         mids[0]['twice'] = mids[0]['roles'][0]
-        b.use('pass_twice')
-    kr, ksig = make_routine(b, gk, 'kernel', 0, ['A', 'B', 'F'], names_for(0, 0), kch, [], entry=True)
+    kr, ksig = make_routine(b, gk, 'kernel', 0, ['A', 'B', 'F'], names_for(0, 0), kch, [], entry=True,
+                            info={'is_ep': below, 'transformed': below, 'pset': pset('ABF') if below else set()})
     routines.append(kr)
     pmod = module('pmod', routines=routines)
     f = {'name': 'pmod.f90', 'units': [['module', pmod]]}
-    # dic2p and entry points
-    ep = spec['ep']
-    if ep == 'mid':
-        entry_points = [m['name'] for m in mids]
-        dic = {}
-        for m in mids:
-            for r in roles_p:
-                if r in m['roles']:
-                    dic[m['names'][r]] = values[r]
-        guarded = sorted({r for m in mids for r in roles_p if r in m['roles']})
-    else:
-        entry_points = None if ep == 'driver' else ['kernel']
-        dic = {ROLE_NAMES[r][0]: values[r] for r in roles_p}
-        guarded = sorted(roles_p)
     # input vectors: nmatch matching ones, the rest violate at least one guarded role
     gi = b.g('inputs')
     nmatch = min(3, b.n.get('nmatch', 2))
@@ -365,14 +417,21 @@ def build(spec):
         vec['d'] = [gi.i(-8, 8) / 4.0 for _ in range(vals['B'])]
         vec['match'] = bool(match or not guarded)
         inputs.append(vec)
-    layout = GI.layout_from(b.g('layout'))
-    layout['idcase'] = b.g('layout').pick(['upper', 'mixed']) if F('case_upper') else 'lower'
+    gl = b.g('layout')
+    layout = GI.layout_from(gl)
+    layout['idcase'] = 'lower'
     if F('case_upper'):
-        b.use('case_upper')
+        # upper case throughout with dic2p spelled as the source spells the names; 1 in 4: every occurrence in its own
+        # case with lower-case dic2p keys (loki compares some names case-sensitively and raises KeyError -> rejected)
+        layout['idcase'] = gl.pick(['upper', 'upper', 'upper', 'mixed'])
+        b.use('case_' + layout['idcase'])
+        if layout['idcase'] == 'upper':
+            dic = {k.upper(): v for k, v in dic.items()}
     entry_args = [decl('n', 'int', intent='in')]
     return {'files': [f], 'entry': {'module': 'pmod', 'name': 'kernel', 'args': entry_args},
             'inputs': inputs, 'layout': layout, 'dic2p': dic, 'entry_points': entry_points,
             'meta': {'features': sorted(b.features), 'sites': [], 'guarded': guarded,
+                     'triggers': [t for t in TRIGGERS if t in b.triggers],
                      'routines': [r['name'] for r in routines]}}
 
 
